@@ -56,7 +56,8 @@ def queries(rng, rated, n=10, table=True):
 
 class P(Prop):
     ID = "C06"
-    THEOREMS = ["C06_no_energy_created", "C06_clamp", "C06_inverse_exact_at_table", "C06_scalar_equals_array",
+    THEOREMS = ["C06_no_energy_created", "C06_clamp", "C06_inverse_exact_at_table", "C06_inverse_stays_in_table_cell",
+                "C06_inverse_gain_below_one_step", "C06_scalar_equals_array",
                 "C06_serial_at_grid", "C06_storage"]
     MAKE_TARGETS = ["theories/Props/C06.vo", "theories/Check/Check_C06.vo"]
     CHECK_REQUIRE = ("From Coq Require Import QArith List Bool.\n"
